@@ -103,20 +103,30 @@ def _world(h, **params):
     return inst("root", h, params, workers=w, must_reach=mr, solver="z3")
 
 _STEP_REACH = ["yield-line", "yield-options", "end", "fail", "pending", "jumped"]
+# VHRevisit: a runner that has not started (empty stack built by the harness, no last statement), all three nodes counted
+_REVISIT = dict(DEPTH=0, LAST=0, VISCFG=1, must_reach=["revisited", "run-bounded", "run-ended", "yield-options", "handler-args-evaluated", "pending", "fail"])
+_REVISIT_BAD = dict(DEPTH=0, LAST=0, VISCFG=1, BAD=1, BADMARKUP=1, must_reach=["revisited", "run-bounded", "fail"])
 CHECKS["C01"] = dict(
     level="model_checking",
     claim="Inductive step on the real DialogueRunner.Next: from every runner state in the bounded state space (continuation stack of the listed "
           "depth/queue lengths with every pointer position incl. exhausted queues, last statement nil/line/other/option group with the chosen "
           "body of length 0..2, symbolic store, node and choice) with a head statement of every kind, the returned element, its node, the "
           "flattened continuation, the waiting flag and handler/function invocation counts equal those of a reference big-step semantics on the "
-          "flattened continuation; a symbolic choice leaves all of it unchanged when the pre-state is not waiting.",
+          "flattened continuation; a symbolic choice leaves all of it unchanged when the pre-state is not waiting. Runs (VHRevisit): on a script "
+          "whose three nodes all lead back to n0 = [S, line, jump n0], S of every kind (incl. option bodies left in their middle by a jump, a jump "
+          "to \"n\" + $c0, commands whose arguments are function calls), STEPS consecutive calls are each checked against the reference while the "
+          "host rewrites every variable between two calls: whatever a call leaves behind that changes how a statement behaves the next time it "
+          "runs (caches, memoised targets, reused queues) is a violation.",
     note="Text -> token stream -> parse tree (ANTLR) is outside the claim; the listener side is checked on synthesised parse-tree events where "
          "built. The step from 'every Next from every invariant state' to 'every run' is a paper argument (Next's recursion re-enters as a fresh "
          "call because lastStatement is overwritten first).",
     instances=dict(
         quick=[_world("VHNextStep", DEPTH=2, QLEN=1, BUDGET=1, VISCFG=1, must_reach=_STEP_REACH),
-               _world("VHNextStep", DEPTH=1, QLEN=2, BUDGET=1, VISCFG=1, must_reach=_STEP_REACH)],
+               _world("VHNextStep", DEPTH=1, QLEN=2, BUDGET=1, VISCFG=1, must_reach=_STEP_REACH),
+               _world("VHRevisit", STEPS=5, BUDGET=1, JUMPCAT=1, OPTJUMP=1, CMDV=1, **_REVISIT)],
         thorough=[_world("VHNextStep", DEPTH=3, QLEN=2, BUDGET=1, VISCFG=1, workers=16, must_reach=_STEP_REACH),
+                  _world("VHRevisit", STEPS=7, BUDGET=1, JUMPCAT=1, OPTJUMP=1, CMDV=1, workers=16, **_REVISIT),
+                  _world("VHRevisit", STEPS=5, BUDGET=2, CLAUSES=1, JUMPCAT=1, OPTJUMP=1, CMDV=1, workers=16, **_REVISIT),
                   _world("VHNextStep", DEPTH=1, QLEN=2, BUDGET=1, VISCFG=1, SECOND=1, workers=16, must_reach=_STEP_REACH),
                   _world("VHNextStep", DEPTH=1, QLEN=1, BUDGET=2, VISCFG=1, CLAUSES=1, workers=16, must_reach=_STEP_REACH)]),
     assumptions=["three nodes of opaque lines; statements other than the head (and optionally its successor) are opaque distinct lines",
@@ -158,13 +168,18 @@ CHECKS["C06"] = dict(
     level="model_checking",
     claim="No panic path is feasible: (1) one Next from every state of the C01 state space whose head may also be ill-typed, reference unknown "
           "variables/nodes/functions/commands, carry a nil or empty expression (the AST left by `null`) or use a value-less function as a value, "
-          "followed by a second Next; (2) every built-in called by name through the real table and reflection bridge with 0..3 arguments of "
+          "followed by a second Next; runs of STEPS calls on a looping script whose statement S may be faulty (incl. a line with faulty markup), "
+          "so that a fault is met again and again; host-built snapshots (nil, empty or filled maps) restored and run; (2) every built-in called by name through the real table and reflection bridge with 0..3 arguments of "
           "every kind, numbers ranging over all doubles (0, negatives, non-integers, +-Inf, NaN, beyond int64).",
     note="Panics inside ANTLR are outside the claim; reflect behaves as the engine's go/types-based intrinsics say; rand.Intn by contract (panics iff n <= 0).",
     instances=dict(
-        quick=[_world("VHNextFaults", DEPTH=1, QLEN=1, BUDGET=1, VISCFG=1, workers=12, must_reach=["fail", "error-then-next"])] + _c06_b,
+        quick=[_world("VHNextFaults", DEPTH=1, QLEN=1, BUDGET=1, VISCFG=1, workers=12, must_reach=["fail", "error-then-next"]),
+               _world("VHRevisit", STEPS=5, BUDGET=1, **_REVISIT_BAD),
+               _world("VHRestoreHostBuilt", DEPTH=1, QLEN=1, VISCFG=1, LAST=0, must_reach=["host-built", "jump-after-host-built-restore"])] + _c06_b,
         thorough=[_world("VHNextFaults", DEPTH=2, QLEN=2, BUDGET=1, VISCFG=1, workers=16, must_reach=["fail", "error-then-next"]),
-                  _world("VHNextFaults", DEPTH=1, QLEN=1, BUDGET=2, VISCFG=1, CLAUSES=1, workers=16, must_reach=["fail", "error-then-next"])] + _c06_b),
+                  _world("VHNextFaults", DEPTH=1, QLEN=1, BUDGET=2, VISCFG=1, CLAUSES=1, workers=16, must_reach=["fail", "error-then-next"]),
+                  _world("VHRevisit", STEPS=7, BUDGET=1, workers=16, **_REVISIT_BAD),
+                  _world("VHRestoreHostBuilt", DEPTH=2, QLEN=2, CMDCHAN=1, workers=16, must_reach=["host-built", "jump-after-host-built-restore"])] + _c06_b),
     assumptions=["in-range choices (as the property requires)", "float->int conversion of out-of-range values as on amd64"],
 )
 CHECKS["C09"] = dict(
@@ -206,10 +221,12 @@ CHECKS["C07"] = dict(
          "random functions and host storers are outside the claim.",
     instances=dict(
         quick=[_world("VHSnapshotAtJump", DEPTH=1, QLEN=1, HEAD=100, VARSNAP=1, must_reach=["jumped"]),
-               _world("VHRestore", DEPTH=1, QLEN=1, CMDCHAN=1, VISCFG=1, must_reach=["restored", "unknown-node", "jump-after-restore", "visit-functions-after-restore"])],
+               _world("VHRestore", DEPTH=1, QLEN=1, CMDCHAN=1, VISCFG=1, must_reach=["restored", "unknown-node", "jump-after-restore", "visit-functions-after-restore"]),
+               _world("VHRestoreHostBuilt", DEPTH=1, QLEN=1, VISCFG=1, LAST=0, must_reach=["host-built", "jump-after-host-built-restore"])],
         thorough=[_world("VHSnapshotAtJump", DEPTH=2, QLEN=2, HEAD=100, VARSNAP=1, workers=16, must_reach=["jumped"]),
                   _world("VHSnapshotAtJump", DEPTH=1, QLEN=1, BUDGET=1, VARSNAP=1, workers=16, must_reach=["jumped"]),
-                  _world("VHRestore", DEPTH=2, QLEN=2, CMDCHAN=1, workers=16, must_reach=["restored", "unknown-node", "jump-after-restore", "visit-functions-after-restore"])]),
+                  _world("VHRestore", DEPTH=2, QLEN=2, CMDCHAN=1, workers=16, must_reach=["restored", "unknown-node", "jump-after-restore", "visit-functions-after-restore"]),
+                  _world("VHRestoreHostBuilt", DEPTH=2, QLEN=2, CMDCHAN=1, workers=16, must_reach=["host-built", "jump-after-host-built-restore"])]),
     assumptions=["snapshot: node name 2 symbolic bytes, variables b0/x/only with symbolic values, visit counts absent or in [1,2^40)"],
 )
 
@@ -227,9 +244,11 @@ CHECKS["C10"] = dict(
     instances=dict(
         quick=[_world("VHCommandPoll", DEPTH=1, QLEN=1, CMDCHAN=1, VISCFG=1, must_reach=["has-channel", "polled", "error-surfaced", "resumed"]),
                _world("VHNextStep", DEPTH=1, QLEN=2, BUDGET=1, VISCFG=1, HEAD=6, must_reach=["pending", "handler-args", "fail", "end-by-stop"]),
+               _world("VHRevisit", STEPS=5, BUDGET=1, HEAD=6, CMDV=1, DEPTH=0, LAST=0, VISCFG=1, must_reach=["revisited", "handler-args-evaluated", "pending"]),
                inst("root", "VHWait", solver="cvc5", timeout_ms=300000, must_reach=["pending"])],
         thorough=[_world("VHCommandPoll", DEPTH=2, QLEN=2, CMDCHAN=1, workers=16, must_reach=["has-channel", "polled", "error-surfaced", "resumed"]),
                   _world("VHNextStep", DEPTH=2, QLEN=2, BUDGET=1, VISCFG=1, HEAD=6, must_reach=["pending", "handler-args", "fail", "end-by-stop"]),
+                  _world("VHRevisit", STEPS=8, BUDGET=1, HEAD=6, CMDV=1, DEPTH=0, LAST=0, workers=16, must_reach=["revisited", "handler-args-evaluated", "pending"]),
                   inst("root", "VHWait", solver="cvc5", timeout_ms=600000, must_reach=["pending"])]),
     assumptions=["completion schedules: already complete, or complete after 0..2 polls, with nil or an error"],
 )
